@@ -214,6 +214,13 @@ func c15History(c *vctx, rng *vrng, num int, steps int, family int) error {
 			args = []string{"backup", h.src}
 		case family == 1 && step == 3:
 			args = []string{"forget", "--keep-last", "1", "--prune"}
+		case family == 3 && step < 3:
+			h.mutateSource(rng)
+			args = []string{"backup", h.src}
+		case family == 3 && step == 3:
+			args = []string{"forget", "--keep-last", "1"}
+		case family == 3 && (step == 4 || step == 5):
+			args = []string{"prune"}
 		case v1 && step >= 1 && (step >= 2 || x < 50):
 			args = []string{"migrate", "upgrade_repo_v2"}
 		case step == 0 || len(snaps) == 0 || x < 30:
@@ -266,8 +273,19 @@ func c15History(c *vctx, rng *vrng, num int, steps int, family int) error {
 		if args[0] == "forget" && rng.chance(55) {
 			cut, single, singleSnap = -1, rng.intn(2), true
 		}
-		if family == 1 && step < 3 {
-			cut, single = -1, -1
+		// op-class fault: every Save of an index file (from the failIdx-th on) fails during a step that rewrites the index
+		failIdx := -1
+		if cut < 0 && single < 0 && (args[0] == "prune" || (args[0] == "forget" && len(args) > 3) || args[0] == "repair") && rng.chance(30) {
+			failIdx = rng.intn(2)
+		}
+		if (family == 1 || family == 3) && step < 3 {
+			cut, single, failIdx = -1, -1, -1
+		}
+		if family == 3 && step == 3 {
+			cut, single, failIdx = -1, -1, -1
+		}
+		if family == 3 && (step == 4 || step == 5) {
+			cut, single, failIdx = -1, -1, step-4
 		}
 		if family == 1 && step == 3 {
 			cut, single, singleSnap = -1, rng.intn(2), true
@@ -291,6 +309,18 @@ func c15History(c *vctx, rng *vrng, num int, steps int, family int) error {
 				return nil
 			}
 		}
+		if failIdx >= 0 {
+			seen := 0
+			e.rec.OnOp = func(o *vop) error {
+				if o.Op == "Save" && o.Type == backend.IndexFile {
+					seen++
+					if seen > failIdx {
+						return backoff.Permanent(errVerifCut)
+					}
+				}
+				return nil
+			}
+		}
 		_, _, cerr := e.cli(args...)
 		e.rec.CutAt = -1
 		e.rec.OnOp = nil
@@ -301,7 +331,7 @@ func c15History(c *vctx, rng *vrng, num int, steps int, family int) error {
 				crashed = true
 			}
 		}
-		if cut >= 0 || single >= 0 {
+		if cut >= 0 || single >= 0 || failIdx >= 0 {
 			e.rec.Reset()
 			_, _, _ = e.cli("unlock", "--remove-all")
 		}
@@ -339,7 +369,9 @@ func c15History(c *vctx, rng *vrng, num int, steps int, family int) error {
 			cmd += "-" + strings.TrimLeft(args[1], "-")
 		}
 		st := "ok"
-		if crashed && single >= 0 {
+		if crashed && failIdx >= 0 {
+			st = fmt.Sprintf("fail-index-saves-from@%d", failIdx)
+		} else if crashed && single >= 0 {
 			st = fmt.Sprintf("fail1@%d", single)
 			if singleSnap {
 				st = fmt.Sprintf("fail1-rmsnap@%d", single)
@@ -371,10 +403,10 @@ func engineC15(c *vctx) error {
 	c.Preamble("Open Scope N_scope.")
 	repository.VerifC15SetLockWait(time.Millisecond)
 	defer os.RemoveAll(filepath.Join("/dev/shm", fmt.Sprintf("verif-c15-%d", os.Getpid())))
-	nh := c.n(6, 120)
+	nh := c.n(8, 120)
 	for i := 0; i < nh; i++ {
 		rng := c.rng.fork()
-		if err := c15History(c, rng, i, 5+rng.intn(6), i%3); err != nil {
+		if err := c15History(c, rng, i, 5+rng.intn(6), i%4); err != nil {
 			return fmt.Errorf("history %d: %w", i, err)
 		}
 	}
